@@ -11,7 +11,7 @@ import bt
 from bt import algos
 from bt.core import CouponPayingSecurity, FixedIncomeStrategy, Security, SecurityBase, Strategy, StrategyBase
 
-from .. import common, instrument as ins, mon1, w1, w2
+from .. import common, instrument as ins, mon1, w1, w2, w5
 from . import _w2case
 
 ID = "C10"
@@ -42,11 +42,12 @@ def plan(tier):
     q = tier == "quick"
     return [dict(unit="w2", n=200 if q else 5000, builds=["py", "so"], case_timeout=180),
             dict(unit="w1", n=400 if q else 15000, builds=["py", "so"], case_timeout=60),
+            dict(unit="w5", n=120 if q else 4000, builds=["py", "so"], case_timeout=120),
             dict(unit="faults", n=(len(FAULTS) * 110) if q else (len(FAULTS) * 1500), builds=["py", "so"], case_timeout=60)]
 
 
 def floors(tier):
-    c = {"reports_ok": 2000, "finite_cells": 100000, "w1_ops": 4000}
+    c = {"reports_ok": 2000, "finite_cells": 100000, "w1_ops": 4000, "fi_runs_completed": 150}
     for f in FAULTS:
         c["fault_" + f] = 200
     return {"min_decided": 1500, "counters": c, "max_undecided_frac": 0.2}
@@ -141,6 +142,45 @@ def case_w1(cs):
     if bad:
         return common.result(common.VIOL, sig=sig, nt=True, cnt=cnt, mech="c10_nonfinite", witness=dict(bad, case_seed=cs))
     return common.result(common.HELD, sig=sig, nt=drv.trades >= 1, cnt=cnt, sample={"tree": spec["tree"], "n_dates": len(spec["ops"])})
+
+
+def case_w5(cs):
+    """fixed-income backtests (coupons, costs, hedges, zero marks, notional schedules incl. 0) complete, report and stay finite"""
+    ins.reset()
+    spec = w5.gen(cs)
+    run = w5.run_backtest(spec)
+    sig = ["w5"] + w5.signature(spec)
+    cnt = {}
+    if run.exc is not None:
+        e = run.exc
+        w = {"exception": "%s: %s" % (type(e).__name__, str(e)[:200]), "kinds": spec["kinds"], "case_seed": cs, "fixed_income": True}
+        if common.is_guard_exc(e):
+            return common.result(common.VIOL, sig=sig, nt=True, mech="k1_guard", witness=w)
+        if isinstance(e, ZeroDivisionError):
+            return common.result(common.OOD, sig=sig, why="zero notional with pnl (ill-formed by design)")
+        return common.result(common.VIOL, sig=sig, nt=True, mech="c10_run_raises", witness=w)
+    t = run.bt
+    common.bump(cnt, "fi_runs_completed")
+    try:
+        with contextlib.redirect_stdout(io.StringIO()), contextlib.redirect_stderr(io.StringIO()):
+            res = bt.backtest.Result(t)
+            for name, fn in REPORTS:
+                fn(res, t)
+                common.bump(cnt, "reports_ok")
+            name = "RenormalizedFixedIncomeResult"
+            r2 = bt.backtest.RenormalizedFixedIncomeResult(float(np.mean(spec["nv"])) or 1e5, t)
+            r2.stats
+            r2.prices
+            common.bump(cnt, "reports_ok")
+    except Exception as e:
+        return common.result(common.VIOL, sig=sig, nt=True, cnt=cnt, mech="c10_report_raises",
+                             witness={"accessor": name, "exception": "%s: %s" % (type(e).__name__, str(e)[:200]), "kinds": spec["kinds"], "case_seed": cs})
+    bad = nonfinite(run.root)
+    common.bump(cnt, "finite_cells", sum(m.data.size for m in run.root.members))
+    if bad:
+        return common.result(common.VIOL, sig=sig, nt=True, cnt=cnt, mech="c10_nonfinite", witness=dict(bad, kinds=spec["kinds"], case_seed=cs))
+    ntr = len([e for e in run.events if e["k"] == "trade"])
+    return common.result(common.HELD, sig=sig, nt=ntr >= 1, cnt=cnt, sample=w5.sample_of(spec))
 
 
 # ------------------------------------------------------------------ C10b
@@ -428,4 +468,6 @@ def run_case(unit, cs, idx, build, params):
         return case_w2(cs)
     if unit == "w1":
         return case_w1(cs)
+    if unit == "w5":
+        return case_w5(cs)
     return case_fault(cs, idx)
